@@ -17,7 +17,9 @@ MODES = ["fn", "mod", "trait_self", "static_target"]
 def enumerate_states(tier):
     depths = range(1, 6) if tier == "thorough" else range(1, 4)
     states = []
-    for mode, asy, d, ar, lt in itertools.product(MODES, (False, True), depths, (0, 1, 2), (False, True, "ab", "abw", "gen", "prov", "val", "mki", "mut", "bys", "provrec")):
+    for mode, asy, d, ar, lt in itertools.product(MODES, (False, True), depths, (0, 1, 2), (False, True, "ab", "abw", "gen", "prov", "val", "mki", "ndi", "mut", "bys", "provrec")):
+        if lt == "ndi" and (d != 1 or mode not in ("fn", "mod") or asy or (ar == 2 and tier != "thorough")):
+            continue    # no_deps + return-position `impl Trait`
         if lt == "abw" and ar == 2 and tier != "thorough":
             continue    # like "ab", the outlives relation written as a where clause
         if lt == "mut" and (ar == 2 and tier != "thorough"):
@@ -38,7 +40,7 @@ def enumerate_states(tier):
             continue    # a provided (default-bodied) method of an entraited trait
         if lt in ("ab", "gen", "prov") and ar == 2 and tier != "thorough":
             continue
-        states.append(dict(key="z_%s_%s_d%d_a%d%s" % (mode, "a" if asy else "s", d, ar, {False: "", True: "_lt", "ab": "_ltab", "gen": "_gen", "prov": "_prov", "val": "_val", "mki": "_mki", "mut": "_mut", "bys": "_bys", "provrec": "_provrec", "abw": "_ltabw"}[lt]), mode=mode, asy=asy, depth=d, arity=ar, lt=lt))
+        states.append(dict(key="z_%s_%s_d%d_a%d%s" % (mode, "a" if asy else "s", d, ar, {False: "", True: "_lt", "ab": "_ltab", "gen": "_gen", "prov": "_prov", "val": "_val", "mki": "_mki", "mut": "_mut", "bys": "_bys", "provrec": "_provrec", "abw": "_ltabw", "ndi": "_ndi"}[lt]), mode=mode, asy=asy, depth=d, arity=ar, lt=lt))
     return states, len(states), dict(depths=list(depths), arities=[0, 1, 2], modes=MODES)
 
 
@@ -79,8 +81,9 @@ def render(s):
     # bottom level in the mode under test
     i = d
     any_ = "&impl ::core::any::Any"
-    RT = "impl ::core::convert::Into<u64>" if lt == "mki" else "u64"
-    MK = ", mockall" if lt == "mki" else ""
+    RT = "impl ::core::convert::Into<u64>" if lt in ("mki", "ndi") else "u64"
+    MK = ", mockall" if lt == "mki" else ", no_deps" if lt == "ndi" else ""
+
     if mode == "fn":
         L.append("    #[::entrait::entrait(pub L%d%s)]" % (i, MK))
         L.append("    pub %sfn l%d%s(deps: %s%s) -> %s { %s own%s }" % (A, i, G, any_, params, RT, boxes(i), asum))
@@ -132,12 +135,15 @@ def render(s):
         L.append("    impl DelegateL%d<Self> for App { type Target = X; }" % i)
         app = "::entrait::Impl::new(App)"
         direct = ("l1(&app%s)" % args) if d > 1 else ("X::l1(&app%s)" % args)
+    if lt == "ndi":
+        L = [l.replace("(deps: &impl ::core::any::Any, ", "(").replace("(deps: &impl ::core::any::Any)", "()") if " fn l1" in l else l for l in L]
+        direct = direct.replace("l1(&app, ", "l1(").replace("l1(&app)", "l1()")
     if lt == "abw":
         L = [l.replace("-> u64 {", "-> u64 where 'b: 'a {", 1).replace("-> u64; }", "-> u64 where 'b: 'a; }") if (" fn l" in l or "fn l" in l) and "<'a, 'b>" in l else l for l in L]
     via = "L1::l1(&app%s)" % args
     if lt == "val":
         via = "L1::l1(::entrait::Impl::new(App)%s)" % args
-    if lt == "mki":
+    if lt in ("mki", "ndi"):
         direct, via = "::core::convert::Into::<u64>::into(%s)" % direct, "::core::convert::Into::<u64>::into(%s)" % via
 
     def wrap(e):
@@ -153,7 +159,7 @@ def render(s):
 def model(s):
     d, ar = s["depth"], s["arity"]
     total = d * (d + 1) // 2
-    extra = {False: 0, None: 0, True: 2, "ab": 2, "gen": 2, "prov": 0, "val": 0, "mki": 0, "mut": 2, "bys": 0, "provrec": 0, "abw": 2}[s.get("lt")]
+    extra = {False: 0, None: 0, True: 2, "ab": 2, "gen": 2, "prov": 0, "val": 0, "mki": 0, "mut": 2, "bys": 0, "provrec": 0, "abw": 2, "ndi": 0}[s.get("lt")]
     res = sum(i * i for i in range(1, d + 1)) + d * (sum(3 + i for i in range(ar)) + extra)
     return dict(allocs="%d|%d" % (total, total), res="%d|%d" % (res, res))
 
@@ -200,7 +206,7 @@ def evaluate(states, report, tier):
             if sig in done:
                 continue
             done.add(sig)
-            tags = {"mode:" + s["mode"], "async" if s["asy"] else "sync", "depth:%d" % s["depth"], "arity:%d" % s["arity"], {False: "elided", None: "elided", True: "named-lifetime", "ab": "outlives-bound", "gen": "generic-method", "prov": "provided-method", "val": "by-value-self", "mki": "mockall-impl-trait-return", "mut": "mut-ref-parameter", "bys": "delegate-by-self", "provrec": "provided-awaits-sibling", "abw": "outlives-where-clause"}[s.get("lt")]}
+            tags = {"mode:" + s["mode"], "async" if s["asy"] else "sync", "depth:%d" % s["depth"], "arity:%d" % s["arity"], {False: "elided", None: "elided", True: "named-lifetime", "ab": "outlives-bound", "gen": "generic-method", "prov": "provided-method", "val": "by-value-self", "mki": "mockall-impl-trait-return", "mut": "mut-ref-parameter", "bys": "delegate-by-self", "provrec": "provided-awaits-sibling", "abw": "outlives-where-clause", "ndi": "no-deps-impl-trait-return"}[s.get("lt")]}
             report.violation(s["key"], tags, sig, detail, state=s, source=engine.standalone_source(u), meta=dict(mode="run"))
 
 
